@@ -327,6 +327,8 @@ def c11_need(o):
 
 def c12_sig(o):
     c = o["c"]
+    if c["kind"] == "endpoint":
+        return f"endpoint:{c['t']}:{c['router']}:regs={'+'.join(c['regs'])}:customs={'+'.join(c['customs'])}"
     if c["kind"] == "merge":
         return f"merge:{c['t']}:regs={'+'.join(c['regs'])}:customs={'+'.join(c['customs'])}"
     if c["kind"] == "decode":
@@ -336,6 +338,8 @@ def c12_sig(o):
 
 def c12_need(o):
     c = o["c"]
+    if c["kind"] == "endpoint":
+        return [f"endpoint:{c['t']}:{c['router']}"] if o["o"]["ok"] else []
     if c["kind"] == "merge":
         return [f"merge:{c['t']}"]
     if c["kind"] == "decode":
@@ -534,13 +538,15 @@ CHECKS = {
         [dict(module="Codec", sub="tbl-codec", prefixes=("C12.",), sig=c12_sig, need=c12_need, label="codec table",
               required=["merge:IDTokenClaims", "merge:AccessTokenClaims", "merge:LogoutTokenClaims", "merge:UserInfo", "merge:IntrospectionResponse",
                         "merge:JWTProfileAssertionClaims", "merge:JWTTokenRequest", "merge:ActorClaims", "decode:value", "decode:zero", "decode:error",
-                        "seal:plain", "seal:different"])],
+                        "seal:plain", "seal:different", "endpoint:UserInfo:P", "endpoint:UserInfo:L", "endpoint:IntrospectionResponse:P", "endpoint:IntrospectionResponse:L"])],
         ["merge law and tolerant-form tables are model-checked on the table level; what json.Marshal / json.Unmarshal really do is observed per case and "
          "projected to reg | custom | zero | absent (merge) and value | zero | error | invented | panic (decode) by harness/tbldrv/codec.go",
          "custom claims colliding with a registered name carry a value of the registered claim's JSON type (an ill-typed custom value under a registered "
          "name cannot round-trip by construction)",
          "sealing: observed on six plaintext classes x three key relations through crypto.EncryptAES/DecryptAES and op.NewAESCrypto; confidentiality of AES-CFB is not claimed; "
-         "the empty plaintext is exempt from 'only under the same key'"]),
+         "the empty plaintext is exempt from 'only under the same key'",
+         "endpoint cases: /userinfo and /oauth/introspect of both routers over a storage that fills the response object with the case's registered fields and custom claims"],
+        world=True),
     "C11": composed_check("C11",
         [dict(module="AuthResponse", sub="tbl-authresp", prefixes=("C11.",), sig=c11_sig, need=c11_need, label="authorization response table",
               required=["P:response:query", "P:response:fragment", "P:response:form", "L:response:query", "L:response:fragment", "L:response:form",
